@@ -27,8 +27,8 @@ structure UpCtx (c : Cfg) (s : S) : Prop where
   pd : s.procDone = false
   sr : s.setupRetry = false
   dir : s.direct = false
-  ur : s.upReset = false
-  lc : liveCount s.streams = 0
+  ur : s.upReset = true → s.phase = .UpRecvData ∨ s.phase = .UpRecvTrailer
+  lc : liveCount s.streams = 0 ∨ (s.urr = true ∧ respHasMore s.resp = true)
   tm : (s.perTry = false ∧ s.global = false) ∨ s.urr = true
 
 theorem upCtx {c : Cfg} {ar aq : Nat} {s : S} (h : Inv c ar aq s) (hrun : s.running = true) (hupp : upPhase s.phase = true) :
@@ -52,7 +52,8 @@ def UpAt (s' : S) (q : Phase) : Prop :=
 /-- a not cleaned state in the response pass satisfies the invariant once the stable clauses and the pass facts hold -/
 theorem inv_up_state (c : Cfg) (ar aq : Nat) (s' : S) (q : Phase) (b : Base c ar aq s') (hrun : s'.running = true)
     (hcl : s'.cleaned = false) (h3 : K3 s') (h6 : K6 s') (hpd : s'.procDone = false) (hsr : s'.setupRetry = false)
-    (hdir : s'.direct = false) (h8 : s'.pass ≤ 1) (hur : s'.upReset = false) (hlc : liveCount s'.streams = 0)
+    (hdir : s'.direct = false) (h8 : s'.pass ≤ 1) (hur : s'.upReset = false)
+    (hlc : liveCount s'.streams = 0 ∨ (s'.urr = true ∧ respHasMore s'.resp = true))
     (htm : (s'.perTry = false ∧ s'.global = false) ∨ s'.urr = true) (hat : UpAt s' q)
     (h24 : K24 c s') (h25 : K25 c s') (h28 : K28 s') (how : c.oneway = false) : Inv c ar aq s' := by
   obtain ⟨hph, hupq, hresp, hrst, hd, ht⟩ := hat
@@ -66,7 +67,8 @@ theorem inv_up_state (c : Cfg) (ar aq : Nat) (s' : S) (q : Phase) (b : Base c ar
   · exact k7_intro hsr hdir
   · intro _; exact ⟨h8, Or.inr (Or.inl (by rw [hph]; exact hupq))⟩
   · intro _ _
-    refine ⟨hlc, hresp, hur, htm, ?_, ?_, ?_⟩
+    refine ⟨hlc, hresp, ?_, htm, ?_, ?_, ?_⟩
+    · intro hh; rw [hur] at hh; cases hh
     · rw [hph]; exact hrst
     · intro hh; rw [hph] at hh; exact hd hh
     · intro hh; rw [hph] at hh; exact ht hh
@@ -95,7 +97,8 @@ theorem inv_up_state (c : Cfg) (ar aq : Nat) (s' : S) (q : Phase) (b : Base c ar
 theorem headers_finish (c : Cfg) (ar aq : Nat) (s : S) (eos : Bool) (r : Resp) (b : Base c ar aq s)
     (hrun : s.running = true) (hcl : s.cleaned = false) (h3 : K3 s) (h6 : K6 s) (hpd : s.procDone = false)
     (hsr : s.setupRetry = false) (hdir : s.direct = false) (h8 : s.pass ≤ 1) (hur : s.upReset = false)
-    (hlc : liveCount s.streams = 0) (htm : (s.perTry = false ∧ s.global = false) ∨ s.urr = true)
+    (hlc : liveCount s.streams = 0 ∨ (s.urr = true ∧ respHasMore s.resp = true))
+    (htm : (s.perTry = false ∧ s.global = false) ∨ s.urr = true)
     (hph : s.phase = .UpRecvHeader) (hresp : s.resp = some r) (heos : eos = (!r.hasData && !r.hasTrailers))
     (hrst : s.respStarted = false)
     (hopen : (snd s.trace).ended = false ∧ (snd s.trace).reset = false ∧ (snd s.trace).bad = false ∧ (snd s.trace).hdr = false)
@@ -111,7 +114,13 @@ theorem headers_finish (c : Cfg) (ar aq : Nat) (s : S) (eos : Bool) (r : Resp) (
       unfold onUpstreamHeadersFinish dsAppendHeaders emit
       simp only [if_true, recvFinished_comm, recvFinished_statusVar]
     rw [e]
-    obtain ⟨hb, hlc', _, _, _, hs, _⟩ := recvFinished_base c ar aq s b hcl hlc
+    have hlc0 : liveCount s.streams = 0 := by
+      rcases hlc with h0 | ⟨_, h1⟩
+      · exact h0
+      · rw [hresp] at h1
+        simp only [respHasMore] at h1
+        cases hd : r.hasData <;> cases ht : r.hasTrailers <;> simp [hd, ht] at heos h1
+    obtain ⟨hb, hlc', _, _, _, hs, _⟩ := recvFinished_base c ar aq s b hcl hlc0
     apply respond_eos c ar aq _ _ true hb (by simpa using hcl) hlc'
     · simp [sndStep, hs, ho1, ho2, ho3, ho4]
     · simp [sndStep]
@@ -176,7 +185,11 @@ theorem inv_work_urh (c : Cfg) (ar aq : Nat) (s : S) (h : Inv c ar aq s) (hrun :
                                  else onUpstreamHeaders c s (!r.hasData && !r.hasTrailers))
       | none => { s with phase := s.phase.next }) := by
   have hupp : upPhase s.phase = true := by simp [hp, upPhase]
-  obtain ⟨hcl, hpd, hsr, hdir, hur, hlc, htm⟩ := upCtx h hrun hupp
+  obtain ⟨hcl, hpd, hsr, hdir, hur0, hlc, htm⟩ := upCtx h hrun hupp
+  have hur : s.upReset = false := by
+    cases hu : s.upReset with
+    | false => rfl
+    | true => rcases hur0 hu with hh | hh <;> (rw [hp] at hh; cases hh)
   obtain ⟨_, hresp, _, _, hrst0, _, _⟩ := h.k15 hcl hupp
   have hrst : s.respStarted = false := by rw [hrst0, hp]; decide
   obtain ⟨r, hr⟩ : ∃ r, s.resp = some r := by
@@ -260,7 +273,7 @@ theorem inv_work_urh (c : Cfg) (ar aq : Nat) (s : S) (h : Inv c ar aq s) (hrun :
       · rcases hs3 with rfl | rfl <;> simp [orFlag, f_dir, hdir]
       · rcases hs3 with rfl | rfl <;> simp [orFlag, f_ps, h8]
       · rcases hs3 with rfl | rfl <;> simp [orFlag, f_ur, hur]
-      · rcases hs3 with rfl | rfl <;> simp [orFlag, f_st, hlc]
+      · rcases hs3 with rfl | rfl <;> simpa [orFlag, f_st, f_urr, f_resp] using hlc
       · rcases hs3 with rfl | rfl <;> simpa [orFlag] using htm1
       · rcases hs3 with rfl | rfl <;> simp [orFlag, f_ph, hp]
       · rcases hs3 with rfl | rfl <;> simp [orFlag, f_resp, hr]
@@ -299,8 +312,9 @@ theorem inv_work_urh (c : Cfg) (ar aq : Nat) (s : S) (h : Inv c ar aq s) (hrun :
         -- the retry is set up
         have hled := resetUpstream_ledger c aq { s1 with setupRetry := true } ⟨hb1.k10, hb1.k11, hb1.k14⟩
         have key : ∀ s2 : S, (s2 = { s1 with setupRetry := true } ∨ s2 = resetUpstream c { s1 with setupRetry := true }) →
+            liveCount s2.streams = 0 →
             Inv c ar aq (finishPhase c { s2 with perTry := false, urr := false }) := by
-          intro s2 hs2
+          intro s2 hs2 hl20
           have hfr2 : s2.cleaned = false ∧ s2.running = true ∧ snd s2.trace = snd s.trace ∧ nLog s2.trace = nLog s.trace ∧
               s2.downLive = s.downLive ∧ s2.downReset = false ∧ s2.procDone = false ∧ s2.setupRetry = true ∧ s2.pass = s.pass ∧
               s2.up = s.up ∧ s2.respStarted = false ∧ s2.direct = false ∧ s2.upReset = false ∧ s2.global = s.global ∧
@@ -312,7 +326,7 @@ theorem inv_work_urh (c : Cfg) (ar aq : Nat) (s : S) (h : Inv c ar aq s) (hrun :
           obtain ⟨g_cl, g_run, g_snd, g_nl, g_dl, g_dr, g_pd, g_sr, g_ps, g_up, g_rst, g_dir, g_ur, g_gt, g_rq, g_ge, g_rs, g_ret, g_da⟩ := hfr2
           have hl2 : LedgerOk c aq s2 ∧ liveCount s2.streams = 0 ∧ K22 c s2 := by
             rcases hs2 with rfl | rfl
-            · exact ⟨⟨hb1.k10, hb1.k11, hb1.k14⟩, by rw [show ({ s1 with setupRetry := true } : S).streams = s1.streams from rfl, f_st]; exact hlc, hb1.k22⟩
+            · exact ⟨⟨hb1.k10, hb1.k11, hb1.k14⟩, hl20, hb1.k22⟩
             · exact ⟨hled.1, allDead_liveCount hled.2, K22_resetUpstream c _ hb1.k22⟩
           have hb2 : Base c ar aq { s2 with perTry := false, urr := false } := by
             obtain ⟨k1, k2, k4, k9, k10, k11, k12, k13, k14, k20, k21, k22, k31⟩ := hb1
@@ -368,8 +382,18 @@ theorem inv_work_urh (c : Cfg) (ar aq : Nat) (s : S) (h : Inv c ar aq s) (hrun :
           · exact g_rst
           · rfl
         cases heq : eos with
-        | true => simp only [Bool.not_true, Bool.false_eq_true, if_false]; exact key _ (Or.inl rfl)
-        | false => simp only [Bool.not_false, if_true]; exact key _ (Or.inr rfl)
+        | true =>
+          simp only [Bool.not_true, Bool.false_eq_true, if_false]
+          apply key _ (Or.inl rfl)
+          show liveCount s1.streams = 0
+          rw [f_st]
+          rcases hlc with h0 | ⟨_, h1⟩
+          · exact h0
+          · rw [hr] at h1
+            simp only [respHasMore] at h1
+            rw [heq] at heos
+            cases hd : r.hasData <;> cases ht : r.hasTrailers <;> simp [hd, ht] at heos h1
+        | false => simp only [Bool.not_false, if_true]; exact key _ (Or.inr rfl) (allDead_liveCount hled.2)
     · simp only [hchk, Bool.false_eq_true, if_false]
       split
       · exact nofin _ (Or.inr rfl)
